@@ -81,9 +81,11 @@ def make_func(kv, output="scalar", rev_body=False):
     if "O" in kv and not seen_p:
         parts.append("/")
     code = " + ".join(f"{10 ** i} * {nm}" for i, nm in enumerate(names))
-    ret = {"scalar": "code", "tuple": "(code, 2 * code)", "dict": "{'x': code, 'y': -code}"}[output]
+    ret = {"scalar": "code", "tuple": "(code, 2 * code)", "dict": "{'x': code, 'y': -code}", "vector": "jnp.stack([code, 2 * code, 3 * code])"}[output]
     src = f"def f({', '.join(parts)}):\n    code = {code}\n    return {ret}\n"
-    ns = {}
+    import jax.numpy as jnp
+
+    ns = {"jnp": jnp}
     exec(src, ns)
     f = ns["f"]
     sig = inspect.signature(f)
@@ -104,6 +106,8 @@ def outputs_equal(got, exp, output):
         return np.array_equal(np.asarray(got), exp)
     if output == "tuple":
         return isinstance(got, tuple) and len(got) == 2 and np.array_equal(np.asarray(got[0]), exp) and np.array_equal(np.asarray(got[1]), 2 * exp)
+    if output == "vector":  # the leaf's own axis comes after all mapped axes
+        return np.array_equal(np.asarray(got), np.stack([exp, 2 * exp, 3 * exp], axis=-1))
     return isinstance(got, dict) and set(got) == {"x", "y"} and np.array_equal(np.asarray(got["x"]), exp) and np.array_equal(np.asarray(got["y"]), -exp)
 
 
@@ -129,7 +133,7 @@ def _run_productmap(case):
     arrs = arrays(n)
     scal = [7, 8, 9, 7, 8][:n]
     viols, cnt, dig = [], 0, []
-    for output in ("scalar", "tuple", "dict"):
+    for output in ("scalar", "tuple", "dict", "vector"):
         f = make_func(kv, output)
         for r in range(1, n + 1):
             for mapped in itertools.permutations(names, r):
@@ -144,7 +148,7 @@ def _run_productmap(case):
                     continue
                 cnt += 1
                 exp = _expected_product(n, mapped, arrs, scal)
-                dig.append(np.asarray(got if output == "scalar" else (got[0] if output == "tuple" else got["x"])))
+                dig.append(np.asarray(got if output in ("scalar", "vector") else (got[0] if output == "tuple" else got["x"])))
                 if not outputs_equal(got, exp, output) and not viols:
                     viols.append(violation("productmap", "compare", "VALUE", f"signature kinds {kv}, mapped {mapped}, output {output}: result differs from nested loops (shape {np.asarray(dig[-1]).shape} vs {exp.shape})"))
                 if not sig_ok and not viols:
@@ -215,8 +219,10 @@ def _run_spacemap(case):
     sparse_arrs = [np.arange(1, L + 1) * (i + 2) % 5 + 1 for i in range(n)]
     scal = [7, 8, 9, 7, 8][:n]
     viols, cnt, dig = [], 0, []
-    f = make_func(kv, "scalar")
-    for rd in range(0, n + 1):
+    funcs_by_output = {"scalar": make_func(kv, "scalar"), "vector": make_func(kv, "vector")}
+    f = funcs_by_output["scalar"]
+    for output, rd in itertools.product(("scalar", "vector"), range(0, n + 1)):
+        f = funcs_by_output[output]
         for dense in itertools.permutations(names, rd):
             rest = [x for x in names if x not in dense]
             for rs in range(0, len(rest) + 1):
@@ -248,9 +254,11 @@ def _run_spacemap(case):
                                 exp = np.moveaxis(exp, 0, -1)
                         else:
                             exp = exp_d[0]
+                        if output == "vector":  # the leaf axis stays last, whatever put_dense_first says
+                            exp = np.stack([exp, 2 * exp, 3 * exp], axis=-1)
                         dig.append(got)
                         if (got.shape != exp.shape or not np.array_equal(got, exp)) and not viols:
-                            viols.append(violation("spacemap", "compare", "VALUE", f"kinds {kv}, dense {dense}, sparse {sparse}, put_dense_first {pdf}: got shape {got.shape}, expected {exp.shape}; values differ from nested loops"))
+                            viols.append(violation("spacemap", "compare", "VALUE", f"kinds {kv}, output {output}, dense {dense}, sparse {sparse}, put_dense_first {pdf}: got shape {got.shape}, expected {exp.shape}; values differ from nested loops"))
     for bad_d, bad_s in (([names[0]], [names[0]]), ([names[0], names[0]], []), ([], [names[0], names[0]])):
         try:
             spacemap(f, bad_d, bad_s, put_dense_first=False)
